@@ -712,6 +712,11 @@ func (s *Store) Flush() error {
 
 	work, err := s.commit()
 	if err != nil {
+		// The pools that were being written are gone and the files may hold
+		// part of them: whatever is put from now on could not be flushed
+		// correctly either. Refuse further use, as the periodic flush does
+		// when it fails, so that Close does not report success.
+		s.setErr(err)
 		return err
 	}
 
